@@ -152,6 +152,8 @@ func init() {
 					}
 					// queries as transitions: a read between two merges must not freeze anything
 					sp.Ops = append(sp.Ops, skCodec(0, 1, false, false), skCodec(1, 2, false, true), skCodec(2, 0, false, false), skClear(0), skClear(1), skRead(0), skRead(1))
+					// a sketch merged into itself holds its input twice
+					sp.Ops = append(sp.Ops, skMerge(0, 0), skCodec(1, 1, false, false))
 					if mc.MapOrderControlled {
 						for _, ord := range mapOrders {
 							for a := 0; a < 3; a++ {
